@@ -12,7 +12,7 @@ def ConsOn (s : Var → Rat) (red : Reds) : Prop := ∀ e ∈ red, s e.2 = s e.1
 
 theorem specStep_ok {lam : Rat} {st st' : RSt} {key key' : Key} {s : Step}
     (h : specStep lam st key s = .ok (st', key')) :
-    s.x ≠ s.y ∧ s.x ∈ key ∧ s.y ∈ key ∧ key' = s.z :: remove2 key s.x s.y ∧
+    s.x ≠ s.y ∧ s.x ∈ key ∧ s.y ∈ key ∧ key' = insertU s.z (remove2 key s.x s.y) ∧
     st'.D = addGadget st.D lam s.x s.y s.z ∧
     ((s.fresh = true ∧ s.z = st.next ∧ st'.next = st.next + 1 ∧
         st'.red = st.red ++ [((s.x, s.y), s.z)]) ∨
@@ -63,7 +63,7 @@ theorem specStep_exact {σ : Var → Rat} (hσ : IsBool σ) {lam v : Rat} {st st
     {s : Step} (h : specStep lam st key s = .ok (st', key')) (hc : σ s.z = σ s.x * σ s.y) :
     eval σ st'.D + v * mon σ key' = eval σ st.D + v * mon σ key := by
   obtain ⟨_, hx, hy, hk, hD, _⟩ := specStep_ok h
-  rw [hD, hk, eval_addGadget hσ, mon_split hσ hx hy, mon_cons]
+  rw [hD, hk, eval_addGadget hσ, mon_split hσ hx hy, mon_insertU hσ]
   have := step_exact (v := v) (lam := lam) (r := mon σ (remove2 key s.x s.y)) hc (hσ s.x) (hσ s.y)
   linarith
 
@@ -72,7 +72,7 @@ theorem specStep_lower {σ : Var → Rat} (hσ : IsBool σ) {lam v : Rat} {st st
     {s : Step} (h : specStep lam st key s = .ok (st', key')) (hl : |v| ≤ lam) :
     eval σ st'.D + v * mon σ key' ≥ eval σ st.D + v * mon σ key := by
   obtain ⟨_, hx, hy, hk, hD, _⟩ := specStep_ok h
-  rw [hD, hk, eval_addGadget hσ, mon_split hσ hx hy, mon_cons]
+  rw [hD, hk, eval_addGadget hσ, mon_split hσ hx hy, mon_insertU hσ]
   have := step_lower (v := v) (lam := lam) (hσ s.x) (hσ s.y) (hσ s.z)
     (mon_bool hσ (remove2 key s.x s.y)) hl
   linarith
